@@ -265,6 +265,7 @@ func cmdBatch(args []string) int {
 		*tag = fmt.Sprint(*worker)
 	}
 	verifsim.SetSites(*nsites)
+	auditSites = *nsites
 	loadHotSites()
 	rl := newRaceLog()
 	rep := newReport()
@@ -439,6 +440,7 @@ func cmdReplay(args []string) int {
 		return 2
 	}
 	verifsim.SetSites(*nsites)
+	auditSites = *nsites
 	loadHotSites()
 	rl := newRaceLog()
 	var out ReplayOutcome
